@@ -107,4 +107,12 @@ PROPS = {
         "min_obligations": {"quick": 4, "thorough": 4},
         "uncovered": ["connect_blocking / connect_async (real sockets): that the ISI is the first and only frame and is sent in the configured size mode is not reachable by either verifier; Framed::handshake == write(isi) is one call (C06 covers write)"],
     },
+    "C06": {
+        "level": "model_checking",
+        "trusted_base": [A_KANI, "the executable model of Codec::encode's contract used as a Kani stub (the contract itself is proved in C03/verus/framing::Codec::encode)"],
+        "assumptions": ["std::io::Write::write_all is known by its documented contract (writes the whole buffer or fails): the scripted transport implements it directly, because the default implementation's io::Error paths do not terminate in CBMC (measured)", "A8 Codec::encode is replaced by a model of its proved contract: Kani cannot be given the 73-way binrw writer plus Bytes in the same harness within the time budget"],
+        "min_obligations": {"quick": 4, "thorough": 4},
+        "explanation": "bounded model checking of the real blocking Framed::write with CBMC: frames of 4 bytes, two packets per run, every acceptance count 1..=4 of the transport; request ids symbolic",
+        "uncovered": ["the tokio Framed::write (write_all_buf) and transports that return Pending: async code is outside Kani and Verus", "UDP / WebSocket adaptors", "frames longer than 4 bytes and sequences longer than 2 packets (bound)"],
+    },
 }
